@@ -37,7 +37,7 @@ SANDVINE = ["audio", "cloud", "file_sharing", "fixed_social_media", "gaming", "m
 
 @st.composite
 def pipeline_case(draw, ctx):
-    case = draw(rfagen.rfa_case(ctx, m_lo=2))
+    case = draw(rfagen.rfa_case(ctx, m_lo=2, n_hi=64))
     case["rule"] = draw(st.sampled_from(["trapezoid", "rectangle"]))
     case["append"] = draw(st.sampled_from([None, None, False, True]))
     return case
